@@ -120,7 +120,6 @@ func (c *Conversation) maybeRetransmit() ([]messageWithHeader, error) {
 
 func (c *Conversation) retransmit() ([]messageWithHeader, error) {
 	msgs := c.resend.pending()
-	c.resend.clear()
 	ret := make([]messageWithHeader, 0, len(msgs))
 
 	resending := c.resend.mayRetransmit == retransmitWithPrefix
@@ -144,6 +143,10 @@ func (c *Conversation) retransmit() ([]messageWithHeader, error) {
 		toSend, _ := c.wrapMessageHeader(msgTypeData, dataMsg.serialize(c.version))
 		ret = append(ret, toSend)
 	}
+
+	// only forget the messages once all of them are on their way: if we can't
+	// generate them now (no secure channel yet) they wait for the next chance
+	c.resend.clear()
 
 	ev := MessageEventMessageSent
 	if resending {
